@@ -23,11 +23,32 @@ structure PivotState (α : Type) where
   centers : List (V2 α)
   completed : List Nat
 
-/-- `angle < 1e-6` is skipped -/
+/-- below this angle a neighbour counts as being on the ball already -/
 def pivotMinAngle : α := Scalar.ofRat 1 1000000
+/-- an angle this close to a full turn is an angle of zero lost to round-off -/
+def pivotWrapTol : α := Scalar.ofRat 1 1000000000
 
-/-- one candidate centre against the best so far (`PivotPoint::better_of`: the first one wins ties) -/
-def pivotCand (pw dir : V2 α) (dirn : AngleDir) (ni : Nat) (best : Option (Nat × V2 α × α)) (pi : V2 α) :
+/-- one candidate centre against the best so far (`PivotPoint::better_of`: the first one wins ties).
+    After the repair: an angle of almost a full turn counts as zero, and a neighbour `pn` that is on the
+    ball already (angle below `pivotMinAngle`) is a candidate exactly when it lies AHEAD of the working
+    point in the direction of travel — the ball would otherwise roll over it; before the repair every
+    such neighbour was skipped (`pivotCand_prefix`). -/
+def pivotCand (pw dir : V2 α) (r : α) (pn : V2 α) (dirn : AngleDir) (ni : Nat) (best : Option (Nat × V2 α × α)) (pi : V2 α) :
+    Option (Nat × V2 α × α) :=
+  let di := V2.sub pi pw
+  let a0 := directedAngle dir di dirn
+  let ang := if Scalar.pi * 2 - pivotWrapTol < a0 then 0 else a0
+  let center := V2.add pw (V2.smul r dir)
+  let travel : V2 α := match dirn with
+    | .ccw => ⟨-dir.y, dir.x⟩
+    | .cw => ⟨dir.y, -dir.x⟩
+  if ang < pivotMinAngle && V2.dot (V2.sub pn center) travel ≤ 0 then best
+  else match best with
+    | none => some (ni, pi, ang)
+    | some b => if ang < b.2.2 then some (ni, pi, ang) else some b
+
+/-- the pre-repair candidate test: every angle below 1e-6 skipped (kept as the regression witness) -/
+def pivotCand_prefix (pw dir : V2 α) (dirn : AngleDir) (ni : Nat) (best : Option (Nat × V2 α × α)) (pi : V2 α) :
     Option (Nat × V2 α × α) :=
   let di := V2.sub pi pw
   let ang := directedAngle dir di dirn
@@ -41,7 +62,7 @@ def pivotNeighbour (pts : List (V2 α)) (r : α) (dirn : AngleDir) (wi : Nat) (d
     (best : Option (Nat × V2 α × α)) (e : Nat × α) : Option (Nat × V2 α × α) :=
   if some e.1 = skip then best else
     (Circle.intersectionsWith ⟨pts.getD wi ⟨0, 0⟩, r⟩ ⟨pts.getD e.1 ⟨0, 0⟩, r⟩).foldl
-      (pivotCand (pts.getD wi ⟨0, 0⟩) dir dirn e.1) best
+      (pivotCand (pts.getD wi ⟨0, 0⟩) dir r (pts.getD e.1 ⟨0, 0⟩) dirn e.1) best
 
 /-- the candidate with the smallest directed angle: `(point index, ball centre, angle)` -/
 def pivotBest (pts : List (V2 α)) (r : α) (dirn : AngleDir) (wi : Nat) (dir : V2 α) (skip : Option Nat) :
